@@ -97,7 +97,8 @@ def probes(r, sp):
                 out.append((v[2:].lower(), ("reject",), "lower case member"))
         out += [("~none~", ("reject",), "non member"), (["a", "b"], ("reject",), "component for set")]
     elif k == "jsonList":
-        out += [("a\"b", ("store", json.dumps(["a\"b"])), "json text"), (["a", None, "\xe9"], ("store", json.dumps(["a", None, "\xe9"])), "json list")]
+        out += [("a\"b", ("store", json.dumps(["a\"b"])), "json text"), ("[1, 2]", ("store", json.dumps(["[1, 2]"])), "text that looks like a JSON list"),
+                ("[]", ("store", json.dumps(["[]"])), "text []"), ('["HH"]', ("store", json.dumps(['["HH"]'])), "text that is a JSON list of strings"), (["a", None, "\xe9"], ("store", json.dumps(["a", None, "\xe9"])), "json list")]
     return [o for o in out if o[0] != ""]
 
 
@@ -446,6 +447,8 @@ def run(ctx):
     from harness.props import C20
     streams.append(C20.order_stream(ctx))
 
+    streams.append(foreign_instances_stream(ctx, r))
+
     # too many fields / components
     tm = Stream("too-many-values")
     for module, letter, spec in schemaio.record_specs():
@@ -469,6 +472,110 @@ def run(ctx):
                         "a component with more values than declared is accepted", "too-many/components")
     streams.append(tm)
     return streams
+
+
+def foreign_instances_stream(ctx, r):
+    """A component *object* (not a list of values) is handed to a record: an object of a component class that is
+    declared like the field's own (same names, same kinds of sub-fields) but with wider constraints - the twin
+    declaration a second schema would carry (shipped pair: the Pentra XLR / Yumizen H5xx order `test`).  It is stored
+    only if its values satisfy the receiving field's constraints; otherwise an error is raised and nothing is stored."""
+    import copy
+    from senaite.astm import fields as F
+    fi = Stream("component-objects-of-other-schemas")
+    for module, letter, spec in schemaio.record_specs():
+        cls = schemaio.real_class(module, letter)
+        if cls is None:
+            continue
+        for f in spec["fields"]:
+            if f["shape"] == "scalar":
+                continue
+            desc = dict(cls._fields).get(f["name"])
+            own = getattr(desc, "mapping", None) or getattr(getattr(desc, "field", None), "mapping", None)
+            if own is None:
+                continue
+            constrained = [j for j, sp in enumerate(f["sub"]) if (sp["kind"] in ("text", "plain") and sp["length"] is not None)
+                           or sp["kind"] in ("set", "constant")]
+            if not constrained:
+                continue
+            # the twin declaration: every sub-field copied, constraints widened (a constant only when it is the
+            # sub-field under test: an absent value reads as the declared constant)
+            def make_twin(j_const=None):
+                twin_fields = []
+                for jj, ((nm, fd), sp) in enumerate(zip(own._fields, f["sub"])):
+                    t = copy.copy(fd)
+                    if sp["kind"] in ("text", "plain"):
+                        t.length = None
+                    elif sp["kind"] == "set":
+                        t.values = set(fd.values) | {"ZQ~"}
+                    elif sp["kind"] == "constant" and jj == j_const:
+                        t.default = "ZQ~"
+                    twin_fields.append(t)
+                return own.__mro__[1].build(*twin_fields)
+            try:
+                make_twin()
+            except Exception:
+                continue
+            for _ in range(30 if ctx.thorough else 5):
+                items, _m = schemaio.gen_component(r, f["sub"], force=True)
+                items = list(items) + [None] * (len(f["sub"]) - len(items))
+                violate = r.random() < 0.7
+                j = r.choice(constrained)
+                sp = f["sub"][j]
+                if violate:
+                    if sp["kind"] in ("text", "plain"):
+                        items[j] = "a" * (sp["length"] + r.choice([1, 5]))
+                    else:
+                        items[j] = "ZQ~"
+                        if sp["kind"] == "constant":
+                            pass
+                try:
+                    twin = make_twin(j if violate else None)
+                    obj_in = twin(*items)
+                except Exception:
+                    continue
+                if violate and sp["kind"] == "constant" and getattr(obj_in, sp["name"], None) != "ZQ~":
+                    continue
+                how = r.choice(["attribute", "constructor", "index"] if f["shape"] == "component" else
+                               ["attribute", "constructor", "append", "setitem"])
+                try:
+                    rec = cls()
+                    if f["shape"] == "repeated" and how in ("append", "setitem"):
+                        setattr(rec, f["name"], [schemaio.gen_component(r, f["sub"], force=True)[0]])
+                    before = copy.deepcopy(rec.to_dict())
+                except Exception:
+                    break
+                raised = None
+                try:
+                    if how == "attribute":
+                        setattr(rec, f["name"], obj_in if f["shape"] == "component" else [obj_in])
+                    elif how == "constructor":
+                        rec = cls(**{f["name"]: obj_in if f["shape"] == "component" else [obj_in]})
+                    elif how == "index":
+                        rec[[n for n, _f in cls._fields].index(f["name"])] = obj_in
+                    elif how == "append":
+                        getattr(rec, f["name"]).append(obj_in)
+                    else:
+                        getattr(rec, f["name"])[0] = obj_in
+                except Exception as exc:  # noqa
+                    raised = type(exc).__name__
+                case = {"module": module, "letter": letter, "field": f["name"], "how": how, "values": items,
+                        "violates": sp["name"] if violate else None}
+                fi.case(case, nontrivial=violate)
+                fi.count("%s/%s" % (how, "violating" if violate else "satisfying"))
+                try:
+                    after = rec.to_dict()
+                except Exception as exc:  # noqa
+                    after = "ERR " + type(exc).__name__
+                if violate and raised is None:
+                    fi.fail(dict(case, stored=repr(after if isinstance(after, str) else after.get(f["name"]))[:200]),
+                            "a component object whose %s violates the receiving field's constraint is stored (%s)" % (sp["name"], how),
+                            "component-objects/accepted")
+                elif violate and how != "constructor" and after != before:
+                    fi.fail(case, "the assignment raised %s but the record was changed" % raised, "component-objects/partial")
+                elif not violate and raised is not None:
+                    fi.fail(dict(case, raised=raised), "a component object whose values satisfy every constraint is refused (%s)" % how,
+                            "component-objects/refused")
+    return fi
 
 
 def search(ctx, disagreements):
